@@ -226,43 +226,47 @@ Print Assumptions C19_old_four_slot_wrapper_refuted.
 
 (* ------------------------- lru_cache_with_expiry, concurrent ------------------------- *)
 
-(* Any number of threads, any schedule (steps at least as fine as source lines): every value a call
-   RETURNS was produced by an invocation of f for arguments with the caller's own key; a call may
-   instead raise (dict mutated during the expiry sweep, key removed by another caller).
-   _partial: the interleaving model of the OrderedDict (iteration invalidated by any mutation,
-   KeyError on missing keys) is not replayed against the implementation inside Coq; the
-   implementation is checked on scheduled runs by the property oracle only.  Not claimed under
-   interleaving: the size bound and "f invoked exactly on misses" (two concurrent misses both
-   invoke f), and freshness (refuted below, finding F-C19-2).
-   Full statement: forall schedules, every returned value was produced by an invocation of f for
-   arguments with the caller's own key, made no longer ago than the validity period. *)
-Theorem C19_lru_interleaving_own_key_partial :
+(* The wrapper as it is now (entry read once with cache.get, its age checked on the hit path).  Any
+   number of threads, any schedule (steps at least as fine as source lines), any clock advances:
+   every value a call RETURNS is the value of a logged invocation of f (number n, run when the clock
+   showed tc) for arguments with the caller's own key; if it was served from the cache, that
+   invocation is within the validity period of the clock value the caller read; otherwise it is the
+   caller's own invocation.  A call may instead raise (dict mutated during the expiry sweep, key
+   removed by another caller between get and move_to_end).
+   The interleaving model of the OrderedDict (iteration invalidated by any mutation, KeyError on
+   missing keys) is exercised on the implementation by the property oracle on scheduled runs, not
+   replayed inside Coq (see LEVEL_NOTE).  Not claimed under interleaving: the size bound and "f
+   invoked exactly on misses" (two concurrent misses both invoke f). *)
+Theorem C19_lru_interleaving_returns_own_fresh :
   forall (A K R : Type) (key : A -> K) (keqb : K -> K -> bool) (f : A -> N -> R) (valid : option Z) (mx : nat),
   (forall x y, keqb x y = true <-> x = y) ->
   forall (t0 : Z) (args : list A) (sch : list sched),
   let st := lcrun key keqb f mx valid sch (mkLS [] 0 t0 0 [], map (fun a => mkLT a LTime) args) in
-  forall (t : @lthread A K R) (r : R), In t (snd st) -> lreturned t = Some r ->
-    exists a' n, key a' = key (lt_arg t) /\ (n < ls_calls (fst st))%N /\ r = f a' n.
-Proof. exact lru_returns_own_key. Qed.
-Print Assumptions C19_lru_interleaving_own_key_partial.
+  forall (t : @lthread A K R) (now : Z) (hit : bool) (r : R),
+    In t (snd st) -> lt_pc t = LDone now hit (Some r) ->
+    exists a' n tc, nth_error (ls_log (fst st)) n = Some (a', tc) /\ r = f a' (N.of_nat n) /\
+      key a' = key (lt_arg t) /\
+      if hit then fresh valid now tc = true else a' = lt_arg t.
+Proof. exact lru_returns_own_fresh. Qed.
+Print Assumptions C19_lru_interleaving_returns_own_fresh.
 
-(* Finding F-C19-2.  The freshness half of the statement fails for the LRU wrapper under
-   interleaving: validity 5, two callers with equal arguments on an empty cache.  Caller 0 reads the
-   clock (1000), sweeps, misses, invokes f and is paused before storing; the clock advances by 6;
-   caller 1 reads the clock (1006) and sweeps (nothing to expire); caller 0 stores its entry with
-   timestamp 1000; caller 1 finds the key, and returns the value computed at 1000 although
-   1006 - 1000 > 5.  (single_item_cache compares the timestamp of the entry it has read and is
-   immune: C19_sic_interleaving_returns_own.) *)
-Theorem C19_lru_interleaving_freshness_refuted :
-  let st := lcrun ckey_of ckeqb cf 2 (Some 5%Z) lru2_sched lru2_init in
-  let st' := lcstep ckey_of ckeqb cf 2 (Some 5%Z) st (SStep 1) in
+(* Finding F-C19-2 (fixed by 76447ff), kept as a regression document for the OLD step list
+   (Model/C19.v, module LruOld: "if key in cache: move_to_end; return cache[key][1]").  Validity 5,
+   two callers with equal arguments on an empty cache.  Caller 0 reads the clock (1000), sweeps,
+   misses, invokes f and is paused before storing; the clock advances by 6; caller 1 reads the clock
+   (1006) and sweeps (nothing to expire); caller 0 stores its entry with timestamp 1000; caller 1
+   finds the key and returns the value computed at 1000 although 1006 - 1000 > 5.
+   Full statement that fails for it: C19_lru_interleaving_returns_own_fresh. *)
+Theorem C19_old_lru_wrapper_freshness_refuted :
+  let st := LruOld.lcrun ckey_of ckeqb cf 2 (Some 5%Z) lru2_sched lru2_init in
+  let st' := LruOld.lcstep ckey_of ckeqb cf 2 (Some 5%Z) st (SStep 1) in
   exists t now t' r a' tc,
-    nth_error (snd st) 1 = Some t /\ lt_pc t = LGet now /\
-    nth_error (snd st') 1 = Some t' /\ lreturned t' = Some r /\
-    nth_error (ls_log (fst st')) 0 = Some (a', tc) /\ r = cf a' 0 /\
+    nth_error (snd st) 1 = Some t /\ LruOld.lt_pc t = LruOld.LGet now /\
+    nth_error (snd st') 1 = Some t' /\ LruOld.lreturned t' = Some r /\
+    nth_error (LruOld.ls_log (fst st')) 0 = Some (a', tc) /\ r = cf a' 0 /\
     fresh (Some 5%Z) now tc = false.
-Proof. exact lru_interleaving_stale. Qed.
-Print Assumptions C19_lru_interleaving_freshness_refuted.
+Proof. exact lru_old_interleaving_stale. Qed.
+Print Assumptions C19_old_lru_wrapper_freshness_refuted.
 
 (* ------------------------- non-vacuity ------------------------- *)
 Definition ex_a : carg := ([1%Z], []).
@@ -327,13 +331,21 @@ Proof. split; reflexivity. Qed.
 (* LRU interleaving: a schedule in which a call raises (the sweep's iterator is invalidated by the
    other caller's insertion) and the other returns its own value *)
 Example ex_lru_interleaving_raise :
-  map lreturned (snd (lcrun ckey_of ckeqb cf 2 None
+  map (fun t => lt_pc t) (snd (lcrun ckey_of ckeqb cf 2 None
         (repeat (SStep 0) 3 ++ repeat (SStep 1) 12 ++ repeat (SStep 0) 3)
         (mkLS [] 0 1000 0 [], [mkLT ex_a LTime; mkLT ex_b LTime])))
-  = [None; Some (ex_b, 0%N)] /\
-  map (fun t => match lt_pc t with LDone None => true | _ => false end)
-      (snd (lcrun ckey_of ckeqb cf 2 None
-        (repeat (SStep 0) 3 ++ repeat (SStep 1) 12 ++ repeat (SStep 0) 3)
-        (mkLS [] 0 1000 0 [], [mkLT ex_a LTime; mkLT ex_b LTime])))
-  = [true; false].
+  = [LDone 1000 false None; LDone 1000 false (Some (ex_b, 0%N))].
+Proof. reflexivity. Qed.
+
+(* the schedule of F-C19-2 on the current step list: caller 1 reads the stale entry caller 0 has just
+   stored, sees its age and recomputes; and a schedule where caller 1 is served from the cache *)
+Example ex_lru_interleaving_stale_entry_recomputed :
+  map (fun t => lt_pc t) (snd (lcrun ckey_of ckeqb cf 2 (Some 5%Z)
+        (repeat (SStep 0) 8 ++ [STick 6] ++ repeat (SStep 1) 5 ++ [SStep 0] ++ repeat (SStep 1) 7 ++ repeat (SStep 0) 3)
+        lru3_init))
+  = [LDone 1000 false (Some (([1%Z], []), 0%N)); LDone 1006 false (Some (([1%Z], []), 1%N))] /\
+  map (fun t => lt_pc t) (snd (lcrun ckey_of ckeqb cf 2 (Some 5%Z)
+        (repeat (SStep 0) 8 ++ [STick 5] ++ repeat (SStep 1) 5 ++ [SStep 0] ++ repeat (SStep 1) 7 ++ repeat (SStep 0) 3)
+        lru3_init))
+  = [LDone 1000 false (Some (([1%Z], []), 0%N)); LDone 1005 true (Some (([1%Z], []), 0%N))].
 Proof. split; reflexivity. Qed.
